@@ -8,6 +8,8 @@ prototype on every path that returns one (exhaustiveness), and ranges are
 re-imposed after SetInitialPoints; lattice starting points are cell centres,
 buckshot/sparsity pass (lower, upper, npts); sampled points are an affine image
 of the unit cube / pass through clip; the three wrappers agree.
+Round 3: __update_state hands back on every path on which the scan found a
+member.
 NOT decided: that gridpts enumerates the full Cartesian product, that fillpts
 stays in range (it runs an optimiser), step-vs-solve equality, real-call counts.
 """
